@@ -859,7 +859,14 @@ class Executor:
             if ins.res is not None:
                 env[ins.res] = sub.ret
             return not z3.is_false(st.guard)
-        raise NotEncoded("call to external %s" % name)
+        # an external function without a model: reaching the call is an obligation of its own
+        # ("unmodelled-call" must be unreachable for the function to count as encoded)
+        self._oblige(res, "unmodelled-call", site, st, z3.BoolVal(True), name)
+        if "throw" in name or name in ("abort", "exit", "_ZSt9terminatev"):
+            return False
+        if ins.res is not None and not isinstance(ins.ty, VoidTy):
+            env[ins.res] = self.fresh(self._bits(ins.ty), "ext")
+        return True
 
     def _c_string(self, v):
         if isinstance(v, ConstExpr) and v.op == "getelementptr" and isinstance(v.args[0], GlobalRef):
